@@ -15,3 +15,4 @@ import EdxmlProps.C13
 import EdxmlProps.C10
 import EdxmlProps.C07
 import EdxmlProps.C08
+import EdxmlProps.C15
